@@ -173,6 +173,13 @@ func (c *Ctx) collect() {
 					if !ok {
 						continue
 					}
+					for i, v := range vs.Values {
+						if cl, ok := ast.Unparen(v).(*ast.CompositeLit); ok && i < len(vs.Names) {
+							if vo, ok := p.TypesInfo.Defs[vs.Names[i]].(*types.Var); ok {
+								pkgLiteralIndex[vo] = cl
+							}
+						}
+					}
 					vname := "_"
 					if len(vs.Names) > 0 {
 						vname = vs.Names[0].Name
